@@ -49,6 +49,12 @@ func makeNamedType(name string, underlying types.Type) *types.Named {
 	return types.NewNamed(obj, underlying, nil)
 }
 
+// reflectPanic is the program-level panic the real reflect package raises
+// when a Value method is applied to the wrong kind.
+func reflectPanic(fr *frame, method string, v value) targetPanic {
+	return targetPanic{iface{fr.i.runtimeErrorString, fmt.Sprintf("reflect: call of reflect.Value.%s on %T Value", method, v)}}
+}
+
 func makeReflectValue(t types.Type, v value) value {
 	return structure{rtype{t}, v}
 }
@@ -359,7 +365,7 @@ func ext۰reflect۰Value۰Pointer(fr *frame, args []value) value {
 	case *closure:
 		return uintptr(unsafe.Pointer(v))
 	default:
-		panic(fmt.Sprintf("reflect.(Value).Pointer(%T)", v))
+		panic(reflectPanic(fr, "Pointer", v))
 	}
 }
 
@@ -374,7 +380,7 @@ func ext۰reflect۰Value۰Index(fr *frame, args []value) value {
 		i := fr.i.path.forkIndex(args[1], len(v), "reflect Index")
 		return makeReflectValue(t.(*types.Slice).Elem(), v[i])
 	default:
-		panic(fmt.Sprintf("reflect.(Value).Index(%T)", v))
+		panic(reflectPanic(fr, "Index", v))
 	}
 }
 
@@ -410,7 +416,7 @@ func ext۰reflect۰Value۰Elem(fr *frame, args []value) value {
 		}
 		return makeReflectValue(rV2T(args[0]).t.Underlying().(*types.Pointer).Elem(), v)
 	default:
-		panic(fmt.Sprintf("reflect.(Value).Elem(%T)", x))
+		panic(reflectPanic(fr, "Elem", x))
 	}
 }
 
@@ -481,7 +487,7 @@ func ext۰reflect۰Value۰IsNil(fr *frame, args []value) value {
 	case *closure:
 		return x == nil
 	default:
-		panic(fmt.Sprintf("reflect.(Value).IsNil(%T)", x))
+		panic(reflectPanic(fr, "IsNil", x))
 	}
 }
 
@@ -498,6 +504,12 @@ func ext۰reflect۰Value۰Set(fr *frame, args []value) value {
 func ext۰reflect۰valueInterface(fr *frame, args []value) value {
 	// Signature: func (v reflect.Value, safe bool) interface{}
 	v := args[0].(structure)
+	// a Value of interface kind holds an interface: Interface() returns it
+	if inner, ok := rV2V(v).(iface); ok {
+		if _, isI := rV2T(v).t.Underlying().(*types.Interface); isI {
+			return inner
+		}
+	}
 	return iface{rV2T(v).t, rV2V(v)}
 }
 
